@@ -10,7 +10,9 @@ RULE = ('Rule-based state machine over key graphs built by init/add-key (shared,
         'snapshot/list/restore/delete/clean under any key and cross-user attempts: unlock with another password / '
         "another key, delete of a snapshot the caller does not own (alone or together with an own one), restore and "
         'list-files of a foreign snapshot; commands run on fresh or on long-lived Repository objects that are re-unlocked '
-        'under different keys. Oracle = key-graph model: wrong credentials never unlock; listing shows exactly the '
+        'under different keys; users also leave orphan chunks of their own behind (interrupted snapshots), and any history may run with a cache '
+        'directory, possibly shared with another repository; a fixed regression history makes the clone key with the default (expensive) KDF, '
+        'which generated histories avoid for cost. Oracle = key-graph model: wrong credentials never unlock; listing shows exactly the '
         "family's live snapshots, details only for own ones; foreign delete raises and leaves all objects unchanged; "
         'foreign restore/list yields nothing; delete/clean by u change only objects u may touch. Non-trivial: >=2 users, '
         '>=1 cross-user attempt.')
@@ -49,7 +51,7 @@ def machine(tier, ctx):
     import sys
     return hist.make_machine(sys.modules[__name__], tier, ctx, checks=CHECKS, encrypted=True, cfg_strategy=config(),
                              weights=dict(snapshot=4, delete=1, clean=2, restore=1, list=2, concurrent=0, add_user=4,
-                                          cross=2, unlock_wrong=2))
+                                          cross=2, unlock_wrong=2, plant=1))
 
 
 def run_case(case):
